@@ -215,6 +215,13 @@ def _job(job):
     return stats, viols[:50]
 
 
+def make_hist_system(name):
+    from ..refmodel import ModelSystem
+    return ModelSystem({'name': name, 'spec': families.ops_lang(), 'types': ['Host', 'Data'],
+                        'pair_classes': ['Peer', 'Holds'], 'ep_steps': ['access'], 'invalid_ops': False,
+                        'graph_oracle': True, 'simple_assets': True, 'max_assets': 3, 'max_assocs': 2, 'max_attackers': 0})
+
+
 def run(tier, seed):
     res = common.Result(PROP, tier, seed, 'model_checking')
     res.rule = ('every statically well-typed step expression up to the operator bound (as a generated '
@@ -239,7 +246,20 @@ def run(tier, seed):
             'expressions': n_expr, 'models': len(models), 'chunks': len(chunks)}
         nstates += len(models) * len(chunks)
         res.sample({'expression': sem.show(chunks[-1][0][-1]), 'model': models[-1].describe()})
+    # part B: models reached by edit histories (removals, partial removals, re-adds), with graph
+    # generation itself as an operation, so that state hidden in the model (caches, stale
+    # registrations) is exercised: every reached state's graph is compared with the semantics
+    from .. import engine_hist
+    depth = 4 if tier == 'quick' else 5
+    hres = common.Result(PROP, tier, seed, 'model_checking')
+    reps = engine_hist.explore(make_hist_system, 'OPS', depth, 1, hres, seed, label=f'[histories,OPS,D{depth},K1]')
+    res.add_violations(list(hres.violations.values()))
+    res.bounds.update(hres.bounds)
+    res.count('history_states', len(reps))
+    res.count('history_transitions', hres.counters.get('transitions', 0))
+    res.sample({'history': sorted(reps.values(), key=lambda t: -len(t[0]))[0][0]})
     c = res.counters
+    c['graphs'] = c.get('graphs', 0) + hres.counters.get('transitions', 0)
     c['states'] = c.get('graphs', 0)
     c['transitions'] = c.get('nodes', 0)
     c['traces_validated_against_impl'] = c.get('nodes', 0)
